@@ -90,9 +90,11 @@ def wire_class(t):
         return "l" if t[1] else "n"
     if k == "L":
         tc = wire_class(t[2])
-        if tc in ("l", "n"):
-            return "l" if (t[1] or tc == "l") else "n"
-        return "L"
+        if not t[1]:
+            return tc                      # no elements: it travels as its tail
+        if tc == "n":
+            return "l"
+        return "L"                         # any other tail, a list included: the decoder keeps elements and tail apart
     if k == "s":
         return "b"
     return k
@@ -164,12 +166,13 @@ def oracle(case, impl):
             return ("known", "C01-map-catchall")
         return ("violation", "decoded term denotes a different value")
     if f.get("re") != "same":
-        if contains(tin, big_misordered_map):
-            return ("known", "C01-map-reencode")
+        # the open classes first: a term may also contain the shape of a class that has been repaired since
         if contains(tin, improper_empty_key):
             return ("known", "C01-improper-empty-key")
         if contains(tin, catchall_keys_map):
             return ("known", "C01-map-catchall")
+        if contains(tin, big_misordered_map):
+            return ("known", "C01-map-reencode")
         return ("violation", "re-encoding the decoded term gives different bytes")
     return None
 
